@@ -92,6 +92,7 @@ module Conc = struct
               let acqs = List.filter_map (fun (ci, r) -> if int_of_nat ci = k then Some (show_req r) else None) t.th_trace in
               if acqs = [] then "-" else String.concat "." acqs))) ths) in
           print_endline (status ^ " | " ^ results ^ " | " ^ traces ^ " | " ^ show_dump (k_dump c.c_sh))
+      | fs :: _ when fs <> "memfs" -> print_endline "unmodelled"
       | _ -> print_endline "BADLINE")
 end
 
